@@ -514,6 +514,14 @@ def build_vogp_ad(case, order):
         Y = prob.evaluate(X)
         return real(model_class, prob, noise_var, initial_sample_cnt, X=X, Y=Y)
 
+    if case.get("model") == "numpy-gp":
+        def small(model_class, prob, noise_var, initial_sample_cnt, X=None, Y=None):  # noqa: F811
+            gp = runstubs.NumpyGP(prob.in_dim, prob.out_dim, noise_var, lengthscale=case.get("lengthscale", 0.3))
+            x0 = np.full((1, prob.in_dim), 0.37)
+            gp.add_sample(x0, prob.evaluate(x0))
+            gp.update()
+            return gp
+
     VA.get_gpytorch_model_w_known_hyperparams = small
     try:
         alg = VA.VOGP_AD(epsilon=case["eps"], delta=case["delta"], problem=problem, order=order, noise_var=case["noise_var"],
